@@ -80,6 +80,7 @@ func node.rotateLeft
   let b = lt(rt(view(n)))
   let c = rt(rt(view(n)))
   ensures[shape] result != nil && view(result) == Node(Node(old(a), old(Node_v(view(n))), 1 + max(hgt(old(a)), hgt(old(b))), old(b)), old(Node_v(rt(view(n)))), 1 + max(1 + max(hgt(old(a)), hgt(old(b))), hgt(old(c))), old(c))
+  ensures[bst]   old(bst(view(n))) ==> bst(view(result))
 
 func node.rotateRight
   property C01, C02
@@ -90,6 +91,7 @@ func node.rotateRight
   let b = rt(lt(view(n)))
   let c = rt(view(n))
   ensures[shape] result != nil && view(result) == Node(old(a), old(Node_v(lt(view(n)))), 1 + max(hgt(old(a)), 1 + max(hgt(old(b)), hgt(old(c)))), Node(old(b), old(Node_v(view(n))), 1 + max(hgt(old(b)), hgt(old(c))), old(c)))
+  ensures[bst]   old(bst(view(n))) ==> bst(view(result))
 
 func node.rotateLeftRight
   property C01, C02
@@ -101,6 +103,7 @@ func node.rotateLeftRight
   let c = rt(lt(rt(view(n))))
   let d = rt(rt(view(n)))
   ensures[shape] result != nil && view(result) == Node(Node(old(a), old(Node_v(view(n))), 1 + max(hgt(old(a)), hgt(old(b))), old(b)), old(Node_v(lt(rt(view(n))))), 1 + max(1 + max(hgt(old(a)), hgt(old(b))), 1 + max(hgt(old(c)), hgt(old(d)))), Node(old(c), old(Node_v(rt(view(n)))), 1 + max(hgt(old(c)), hgt(old(d))), old(d)))
+  ensures[bst]   old(bst(view(n))) ==> bst(view(result))
 
 func node.rotateRightLeft
   property C01, C02
@@ -112,6 +115,7 @@ func node.rotateRightLeft
   let c = rt(rt(lt(view(n))))
   let d = rt(view(n))
   ensures[shape] result != nil && view(result) == Node(Node(old(a), old(Node_v(lt(view(n)))), 1 + max(hgt(old(a)), hgt(old(b))), old(b)), old(Node_v(rt(lt(view(n))))), 1 + max(1 + max(hgt(old(a)), hgt(old(b))), 1 + max(hgt(old(c)), hgt(old(d)))), Node(old(c), old(Node_v(view(n))), 1 + max(hgt(old(c)), hgt(old(d))), old(d)))
+  ensures[bst]   old(bst(view(n))) ==> bst(view(result))
 
 // rebalance: the root's stored height is right, the children are good AVL trees whose heights differ by at
 // most two; the result is a good AVL tree with the same multiset whose height dropped by at most one
